@@ -13,6 +13,7 @@ from hypothesis import strategies as st
 from vlib.core import Violation, Out, HarnessError
 from vlib.runner import HypStage
 from vlib import mw, certs, attest
+from vlib.strategies import textlike_head32
 from vlib.device import BOOT, SIGNER
 from vlib.genuine import Genuine
 from vlib.refs import ALL_PATHS
@@ -56,7 +57,7 @@ SGX_TARGETS = ["quote", "quote-sig", "att-key", "qe-report", "qe-sig", "auth-dat
                "cert:quoting_enclave", "cert:platform_ca", "custom-in-quote", "custom-tail",
                "signer-message", "pubkey", "root"]
 REQUIRED_LABELS = {t: ["plat:ledger", "plat:sgx", "unaltered:ok", "altered:refused", "legacy",
-                       "refresh",
+                       "refresh", "via:program",
                        "pages>=2", "ud-form:0x", "ud-form:plain", "ud-leading-zero", "in-place",
                        "tmpdir:other-fs|tmpdir:other-fs-unavailable"] + ["alter:" + x for x in LEDGER_TARGETS + SGX_TARGETS]
                    for t in ("quick", "thorough")}
@@ -64,7 +65,8 @@ h32 = st.binary(min_size=32, max_size=32)
 # 32-byte values, with those that start with zero digits / bytes well represented
 ud32 = st.one_of(h32, h32, st.binary(min_size=31, max_size=31).map(lambda b: b"\x00" + b),
                  st.binary(min_size=32, max_size=32).map(lambda b: bytes([b[0] & 0x0f]) + b[1:]),
-                 st.binary(min_size=28, max_size=28).map(lambda b: bytes(4) + b))
+                 st.binary(min_size=28, max_size=28).map(lambda b: bytes(4) + b),
+                 textlike_head32())
 PINCH = "abcdefghijkmnpqrstuvwxyzABCDEFGHJKLMNPQRSTUVWXYZ23456789"
 
 
@@ -90,6 +92,9 @@ def cases(draw, tier):
          "auth": draw(st.one_of(st.binary(min_size=0, max_size=40), st.just(b""),
                                 st.binary(min_size=0, max_size=1000))),
          "third_cert": draw(st.booleans()), "alter": None,
+         "pem_wrap": draw(st.sampled_from([0, 64, 64, 76])),
+         # through adm_ledger.py / adm_sgx.py with a command line instead of the functions
+         "program": draw(st.integers(0, 3)) == 0,
          # validity periods of the (genuine, unexpired) certificates of the SGX chain
          "cert_windows": draw(st.sampled_from([None, None, {"platform_ca": "no-expiry"},
                                                {"quoting_enclave": "no-expiry"},
@@ -141,7 +146,13 @@ def power_cycle(w):
     w.pinbuf = {}
 
 
+_VIA = {"program": False, "plat": "ledger"}
+
+
 def call(fn, options, stdin_text=""):
+    if _VIA["program"]:
+        from vlib.programs import as_program
+        fn = as_program(fn, options, _VIA["plat"] == "ledger")
     out = io.StringIO()
     saved = sys.stdin
     sys.stdin = io.StringIO(stdin_text)
@@ -237,6 +248,9 @@ def _run_case(c):
     Platform.set(Platform.LEDGER if plat == "ledger" else Platform.SGX,
                  {} if plat == "ledger" else {"sgx_host": "h", "sgx_port": 1})
     failures = []
+    _VIA.update(program=bool(c.get("program")), plat=plat)
+    if c.get("program"):
+        labels.append("via:program")
     try:
         base = dict(verbose=False, pin=c["pin"], any_pin=False, no_exec=False, no_unlock=False,
                     attestation_ud_source=ud_arg(c, c["ud"]), new_pin=None)
@@ -349,6 +363,7 @@ def _run_case(c):
                 failures.append(("verify", e))
     finally:
         Platform.set(Platform.LEDGER)
+        _VIA["program"] = False
     mw.check_sim(w)
     applied = any(ev[0] == "altered" for ev in g.events) or (alter and alter["target"] == "root")
     if alter and not applied:
